@@ -1,5 +1,72 @@
 import TcheranVerif.Model.Search
+/-!
+# C08 — mate announcements: the score ↔ distance arithmetic (theorems), lines by oracle
+
+`mate_in_moves` / `mated_in_moves`: the announced number of moves is exactly the one that a line of
+`p` plies ending in mate corresponds to (`2N−1 = p` resp. `2|N| = p`). `tt_roundtrip`: storing a mate
+score relative to the position and reading it back at the same ply returns the score. The claims
+about the *lines* (legal, non-empty, length matches, ends in mate, depths step by one) are checked on
+every info line of every iteration against the Rules specification and by verbatim agreement with
+the search model (`Model/Search.lean`); the structural proof sketched in DESIGN App. B (S1, S6) is
+not mechanised: partial.
+-/
 namespace Tcheran.Props.C08
-theorem placeholder : True := trivial
+open Tcheran Tcheran.Search
+
+theorem mate_consts : Gen.mate = 32000 ∧ Gen.mateThreshold = 31900 := by decide
+
+/-- a mate delivered in `p` plies (p odd for the mover) is announced as mate in `(p+1)/2` -/
+theorem mate_in_moves (p : Nat) (hp : p < 100) : isMateInMoves (mateIn p) = some (((p : Int) + 1) / 2) := by
+  unfold isMateInMoves mateIn
+  rw [mate_consts.1, mate_consts.2]
+  have h : (32000 : Int) - p > 31900 := by omega
+  rw [if_pos h, Int.tdiv_eq_ediv_of_nonneg (by omega)]
+  congr 1; omega
+
+/-- being mated in `p` plies (p even) is announced as mate in `-(p/2)` -/
+theorem mated_in_moves (p : Nat) (hp : p < 100) : isMateInMoves (matedIn p) = some (-((p : Int) / 2)) := by
+  unfold isMateInMoves matedIn
+  rw [mate_consts.1, mate_consts.2]
+  have h1 : ¬ ((-32000 : Int) + p > 31900) := by omega
+  have h2 : (-32000 : Int) + p < -31900 := by omega
+  rw [if_neg h1, if_pos h2]
+  have e : (-32000 : Int) - (-32000 + p) = -(p : Int) := by omega
+  rw [e, Int.neg_tdiv, Int.tdiv_eq_ediv_of_nonneg (by omega)]
+
+/-- the announced distance determines the parity-correct line length: N>0 ↔ 2N−1 plies, N<0 ↔ 2|N| -/
+theorem line_length_of_announcement (p : Nat) :
+    (p % 2 = 1 → 2 * (((p : Int) + 1) / 2) - 1 = p) ∧ (p % 2 = 0 → 2 * ((p : Int) / 2) = p) := by
+  constructor <;> intro h <;> omega
+
+/-- scores that are not in the mate range are reported as centipawns -/
+theorem not_mate (v : Int) (h1 : -31900 ≤ v) (h2 : v ≤ 31900) : isMateInMoves v = none := by
+  unfold isMateInMoves
+  rw [mate_consts.2]
+  rw [if_neg (by omega), if_neg (by omega)]
+
+/-- **tt_roundtrip**: `from_root (from_position v p) p = v` -/
+theorem tt_roundtrip (v : Int) (p : Nat) : fromRoot (fromPosition v p) p = v := by
+  unfold fromRoot fromPosition
+  rw [mate_consts.2]
+  simp only
+  repeat' split
+  all_goals omega
+
+/-- mate scores at any ply up to the maximum search depth fit `i16` -/
+theorem mate_scores_in_range (p : Nat) (hp : p ≤ 255) : inI16 (mateIn p) = true ∧ inI16 (matedIn p) = true := by
+  unfold inI16 mateIn matedIn i16Min i16Max
+  rw [mate_consts.1]
+  simp only [Bool.and_eq_true, decide_eq_true_eq]
+  omega
+
+example : isMateInMoves (mateIn 3) = some 2 := by decide
+example : isMateInMoves (matedIn 4) = some (-2) := by decide
+
 end Tcheran.Props.C08
-#print axioms Tcheran.Props.C08.placeholder
+#print axioms Tcheran.Props.C08.mate_in_moves
+#print axioms Tcheran.Props.C08.mated_in_moves
+#print axioms Tcheran.Props.C08.line_length_of_announcement
+#print axioms Tcheran.Props.C08.not_mate
+#print axioms Tcheran.Props.C08.tt_roundtrip
+#print axioms Tcheran.Props.C08.mate_scores_in_range
+#print axioms Tcheran.Props.C08.mate_consts
